@@ -56,6 +56,7 @@ fn main() {
         match wl.as_str() {
             // upper-layer workloads observe the API; chmux hook events would only bloat their traces
             "rwlock" => install_hook_sink_for(&["rw_"]),
+            "robs_script" => {}
             _ => install_hook_sink(),
         }
         match wl.as_str() {
@@ -130,6 +131,30 @@ fn main() {
             "rwlock" => {
                 let o = rwlock::RwOpts { remote: get("remote", 1) != 0, cancel: get("cancel", 1) != 0, cut: get("cut", 0) != 0, defer: get("defer", 1) };
                 rt.block_on(rwlock::scenario(s, &o));
+            }
+            "robs_script" => {
+                let path = kv.get("script").expect("script=<file>").clone();
+                let text = std::fs::read_to_string(&path).expect("read script");
+                let mut first = true;
+                for (i, line) in text.lines().enumerate() {
+                    let v: serde_json::Value = match serde_json::from_str(line) {
+                        Ok(v) => v,
+                        Err(_) => continue,
+                    };
+                    if !first {
+                        uninstall_hooks();
+                        let lines = trace_end();
+                        events += lines.len() as u64;
+                        for l in lines {
+                            writeln!(w, "{l}").unwrap();
+                        }
+                        trace_begin();
+                        scen_extra += 1;
+                    }
+                    first = false;
+                    let rt2 = runtime();
+                    rt2.block_on(robs::script_scenario(i as u64 + 1, &v));
+                }
             }
             "peer_script" => {
                 // one scenario per line of the script file (TLC-generated behaviours)
